@@ -73,6 +73,18 @@ func loadWorld(repo string) (*World, error) {
 	for _, g := range w.globalOrder() {
 		w.globalRef(g)
 	}
+	// register the field heaps of every struct type declared in the package (wildcards in extern contracts)
+	scope := w.pkg.Pkg.Scope()
+	for _, n := range scope.Names() {
+		if tn, ok := scope.Lookup(n).(*types.TypeName); ok {
+			if _, ok := tn.Type().Underlying().(*types.Struct); ok {
+				func() {
+					defer func() { recover() }()
+					w.structHeaps(tn.Type(), map[string]bool{})
+				}()
+			}
+		}
+	}
 	return w, nil
 }
 
@@ -82,7 +94,9 @@ func (w *World) fullPrelude() string {
 	b.WriteString(w.prelude())
 	b.WriteString("(declare-fun rangeKey (Int Int) Str)\n(declare-fun rangeIdx (Int Str) Int)\n")
 	b.WriteString("(declare-fun byteAt (Str Int) Int)\n(assert (forall ((s Str) (i Int)) (! (and (<= 0 (byteAt s i)) (<= (byteAt s i) 255)) :pattern ((byteAt s i)))))\n")
+	b.WriteString("(declare-fun elemref (Int Int) Int)\n(assert (forall ((a Int) (i Int)) (! (not (= (elemref a i) 0)) :pattern ((elemref a i)))))\n")
 	b.WriteString("(declare-fun idx (Int Int) Int)\n(assert (forall ((o Int) (i Int)) (! (= (idx o i) (+ o i)) :pattern ((idx o i)))))\n")
+	b.WriteString("(declare-fun runeCount (Str) Int)\n(assert (forall ((s Str)) (! (and (<= 0 (runeCount s)) (<= (runeCount s) (strlen s))) :pattern ((runeCount s)))))\n")
 	b.WriteString("(declare-fun implementsI (Int Int) Bool)\n(declare-fun cloFn (Int) Int)\n(declare-fun cloBind (Int Int) Int)\n")
 	var names []string
 	for _, g := range w.globalOrder() {
@@ -190,6 +204,12 @@ func main() {
 	var all []*Obligation
 	for _, blk := range w.specs.Order {
 		if blk.Kind != "func" || blk.Inline {
+			continue
+		}
+		if blk.Trusted {
+			if blk.used || true {
+				rep.Assumed = append(rep.Assumed, "trusted (body not verified) "+blk.Name)
+			}
 			continue
 		}
 		if re != nil && !re.MatchString(blk.Name) {
